@@ -93,4 +93,4 @@ func verifC14(lo, hi int) {
 }
 
 func VerifC14Quick()    { verifC14(-1, 2) }
-func VerifC14Thorough() { verifC14(-2, 4) }
+func VerifC14Thorough() { verifC14(-2, 3) }
